@@ -19,7 +19,7 @@ from typing import Any, Dict, List, Optional, Tuple
 from ..absint import Evaluator, Const, Sym, Obj, EnumMember, TOP, NOT_HANDLED
 from ..fsmodel import StoreModel, Effect, show, mentions_sym, mentions_attr
 from ..flow import flow_of
-from ..model import unparse, AnchorError, const_str, Func
+from ..model import unparse, AnchorError, const_str, Func, f_cls, stmt_key
 from .common import Ctx
 from .c17 import ref_literal, _class_of_expr, check_reader
 
@@ -297,6 +297,29 @@ def run(ctx: Ctx) -> None:
     rep.rule("C19.R11", "every path of a commit batch gets its record / copy (no early exit from the loop of sync_paths)")
     n11 = every_path_processed(ctx, "C19.R11")
     rep.floor("C19.R11", n11, 2)
+    from .storerules import every_path_answered
+    rep.rule("C19.R14", "load works whenever the record exists: fetch_paths answers every requested path (the result is filed inside the loop over the paths)")
+    n14 = every_path_answered(ctx, "C19.R14")
+    rep.floor("C19.R14", n14, 1)
+    rep.rule("C19.R12", "as C17.R11: the types a codec announces are the types its serialize_into accepts (a kept bytearray is stored by the bytes codec under every commit type)")
+    from .c17 import announced_types_accepted
+    n12 = announced_types_accepted(ctx, "C19.R12")
+    rep.floor("C19.R12", n12, 1)
+    rep.rule("C19.R13", "every `dbutils.fs.put` of the store overwrites: redirect records and metadata are re-written when a path is kept again with changed code")
+    n13 = 0
+    for g in [x for x in prog.funcs.values() if x.module is cls.module]:
+        for c_ in g.own_nodes():
+            if isinstance(c_, ast.Call) and isinstance(c_.func, ast.Attribute) and c_.func.attr == "put" and ".fs" in unparse(c_.func, 100):
+                n13 += 1
+                ow = [k.value for k in c_.keywords if k.arg == "overwrite"] + ([c_.args[2]] if len(c_.args) > 2 else [])
+                desc = f"`{unparse(c_, 60)}` replaces an existing file"
+                if ow and isinstance(ow[0], ast.Constant) and ow[0].value is True:
+                    rep.ok("C19.R13", g.qname, desc, g.loc(c_))
+                else:
+                    rep.bad("C19.R13", g.qname, desc, g.loc(c_), [f"{g.loc(c_)}: overwrite is {unparse(ow[0]) if ow else 'not given (default False)'}",
+                            "the redirect record of a path that is already committed cannot be replaced: keeping it again with changed code raises FileAlreadyExistsException; under "
+                            "'full' the data copy is already the new blob while the record still names the old one"], stmt_key(c_), what="dbutils.fs.put without overwrite: an existing record cannot be replaced")
+    rep.floor("C19.R13", n13, 1)
 
     # ---- R7: one copy location per path ----------------------------------------------------------------------------
     from .storerules import uri_join_keeps_names
